@@ -167,6 +167,16 @@ def assign_def(rng, is_async, payload, concrete, dynamic=True):
     d.append(('events', [('go', ev)], True))
     return d
 
+def big_def(n_states=36, n_events=40):
+    """deterministic: more states and events than any machine word has bits (a ring of states, one event per step
+    and four more that share sources with earlier ones) — seeded change C01-g fast-rejects by a 32-bit event mask"""
+    st = [f'St{i}' for i in range(n_states)]
+    d = [('name', 'Machine'), ('dynamic', True), ('initial', st[0]),
+         ('states', [('leaf', x, None) for x in st]),
+         ('events', [(f'ev{i}', [('transition', [('from', [st[i % n_states]], False), ('to', st[(i + 1) % n_states])])])
+                     for i in range(n_events)], True)]
+    return d
+
 def full_def(is_async, payload, concrete, dynamic=True, ptype='Pay', data=True, initial='Idle'):
     """deterministic: every hook kind at event and at transition level, with and without an around callback,
     an unless-only edge, a multi-source and a superstate-source transition, a superstate target, data on leaves at
